@@ -32,6 +32,7 @@ type c06Crash struct {
 	NewKeys    []string    `json:"newkeys"`
 	NewRead    bool        `json:"newreadable"`
 	RetryOk    bool        `json:"retryok"`
+	SameIDOk   bool        `json:"sameidok"`
 }
 
 type c06Case struct {
@@ -209,6 +210,29 @@ func c06Run(cs *c06Case, r *gen.Rand) {
 				got, e := w.Download("repo", cs.newID, 0, nil)
 				co.NewRead = e == nil && sameFiles(got, cs.Files)
 			}
+			// retry under the same bundle id with other content of the same shape: either refused and still
+			// invisible, or visible with the retried content - never the interrupted run's
+			co.SameIDOk = true
+			if cs.Kind == "upload" && !co.NewRead {
+				w2 := w.Clone()
+				alt := make([]world.File, len(cs.Files))
+				for i, f := range cs.Files {
+					alt[i] = world.File{Name: f.Name, Data: append([]byte("retried:"), f.Data...)}
+				}
+				_, e := w2.Upload("repo", world.Consumable(alt), world.UploadOpts{LeafSize: 64, BundleID: cs.newID, Message: "retry same id", Concurrency: 1})
+				listed := false
+				if bs, e2 := core.ListBundles("repo", w2.Stores()); e2 == nil {
+					for _, b := range bs {
+						listed = listed || b.ID == cs.newID
+					}
+				}
+				if e != nil {
+					co.SameIDOk = !listed
+				} else {
+					got, e2 := w2.Download("repo", cs.newID, 0, nil)
+					co.SameIDOk = listed && e2 == nil && sameFiles(got, alt)
+				}
+			}
 			// retry the operation (a new upload of the same tree gets a new id; a label set is repeated)
 			if cs.Kind == "upload" {
 				rid, e := w.Upload("repo", world.Consumable(cs.Files), world.UploadOpts{LeafSize: 64, Message: "retry"})
@@ -256,7 +280,7 @@ func c06Coq(cs *c06Case) string {
 			latest = "(Some " + S(*c.Latest) + ")"
 		}
 		obs[i] = fmt.Sprintf("{| co_landed_meta := %d%%nat; co_listed := %s; co_latest := %s; co_labels := %s; co_prior_ok := %v; co_new_keys := %s; co_new_readable := %v; co_retry_ok := %v |}",
-			c.LandedMeta, listed, latest, labels, c.PriorOk, strList(c.NewKeys), c.NewRead, c.RetryOk)
+			c.LandedMeta, listed, latest, labels, c.PriorOk, strList(c.NewKeys), c.NewRead, c.RetryOk && c.SameIDOk)
 	}
 	return fmt.Sprintf("{| ac_before := {| sn_meta := %s; sn_vmeta := %s |}; ac_kind := %s; ac_E := 1000%%nat; ac_crashes := [%s] |}",
 		cs.before[0], cs.before[1], kind, strings.Join(obs, ";\n "))
@@ -268,7 +292,7 @@ func init() {
 		c.CaseTy = "acase"
 		c.Report = "report"
 		c.PerFile = 2
-		c.Rule = "histories of 0..3 committed bundles and labels, then a bundle upload or a label assignment interrupted at every mutating store call (blob and metadata stores; before and after the call lands) - all calls for small trees, every metadata write plus sampled blob writes for a 1001-file tree with two file lists; after each crash a restarted process lists bundles, resolves the latest bundle, lists labels, downloads every previously committed bundle and the new one, and retries the operation; non-trivial = crash point at which the operation had written at least one object, distinct by case and crash point"
+		c.Rule = "histories of 0..3 committed bundles and labels, then a bundle upload or a label assignment interrupted at every mutating store call (blob and metadata stores; before and after the call lands) - all calls for small trees, every metadata write plus sampled blob writes for a 1001-file tree with two file lists; after each crash a restarted process lists bundles, resolves the latest bundle, lists labels, downloads every previously committed bundle and the new one, retries the operation, and retries an interrupted upload under the same bundle id with other content of the same shape; label assignments also move existing labels; non-trivial = crash point at which the operation had written at least one object, distinct by case and crash point"
 		emit := func(cs *c06Case) {
 			n := 0
 			for _, co := range cs.Crashes {
@@ -304,15 +328,22 @@ func init() {
 				cs.Kind = "label"
 				cs.Name = []string{"v1", "latest", "rel-1"}[r.Intn(3)]
 			}
-			for j := 0; j < r.Intn(4); j++ {
+			np := r.Intn(4)
+			if cs.Kind == "label" && i%6 == 2 && np < 2 {
+				np = 2
+			}
+			for j := 0; j < np; j++ {
 				cs.Prior = append(cs.Prior, whTree(r, r.Range(1, 4)))
 			}
 			for _, ln := range []string{"v1", "old"} {
-				if len(cs.Prior) > 0 && r.Bool() {
+				if len(cs.Prior) > 0 && (r.Bool() || (cs.Kind == "label" && i%6 == 2)) {
 					cs.Labels = append(cs.Labels, [2]interface{}{ln, float64(r.Intn(len(cs.Prior)))})
 				}
 			}
 			cs.Target = r.Intn(3)
+			if cs.Kind == "label" && len(cs.Labels) > 0 && (r.Bool() || i%6 == 2) { // move an existing label
+				cs.Name = cs.Labels[r.Intn(len(cs.Labels))][0].(string)
+			}
 			cs.Files = whTree(r, r.Range(1, 4))
 			if i == 1 { // two file lists
 				cs.Files = nil
